@@ -181,6 +181,57 @@ Proof.
     apply path_of_tokens_cons; [exact Ht|]. apply IH; [discriminate | exact Hps].
 Qed.
 
+(* a path in front of any text that starts with a dot *)
+Lemma path_before_dot start rest common d k :
+  classes_ok start rest = true -> (iq d = 34 \/ iq d = 96) ->
+  (k = FoldUpper -> always_quoted d = true) ->
+  forall parts suf, parts <> [] -> forallb (fun s => negb (is_star s)) parts = true ->
+  exists toks, sql_lex std_sql (emit_path start rest common d parts ++ 46 :: suf) = toks ++ TPunct 46 :: sql_lex std_sql suf /\
+               path_of_tokens k (iq d) toks = Some parts.
+Proof.
+  intros Hc Hq Hk. induction parts as [|p ps IH]; intros suf Hne Hst; [contradiction|].
+  cbn [forallb] in Hst. apply andb_true_iff in Hst as [Hp Hps]. apply negb_true_iff in Hp.
+  unfold emit_path in *. destruct ps as [|p2 ps'].
+  - cbn [map join_dots].
+    destruct (emit_ident_before_dot start rest common d k p suf Hc Hq Hk Hp) as (t & E & Ht).
+    exists [t]. split; [exact E|]. cbn [path_of_tokens]. rewrite Ht. reflexivity.
+  - change (join_dots (map (emit_ident start rest common d) (p :: p2 :: ps')))
+      with (emit_ident start rest common d p ++ 46 :: join_dots (map (emit_ident start rest common d) (p2 :: ps'))).
+    rewrite <- app_assoc. cbn [app].
+    destruct (IH suf ltac:(discriminate) Hps) as (toks' & E' & P').
+    destruct (emit_ident_before_dot start rest common d k p
+                (join_dots (map (emit_ident start rest common d) (p2 :: ps')) ++ 46 :: suf) Hc Hq Hk Hp) as (t & E & Ht).
+    exists (t :: TPunct 46 :: toks'). split.
+    + rewrite E, E'. reflexivity.
+    + apply path_of_tokens_cons; assumption.
+Qed.
+
+(* t.* : the qualifier is read back as exactly its parts *)
+Theorem qualified_star_roundtrip_ok start rest common d k :
+  classes_ok start rest = true -> (iq d = 34 \/ iq d = 96) ->
+  (k = FoldUpper -> always_quoted d = true) ->
+  forall parts, parts <> [] -> forallb (fun s => negb (is_star s)) parts = true ->
+  qualified_star_denotes k (iq d) (emit_qualified_star start rest common d parts) = Some parts.
+Proof.
+  intros Hc Hq Hk parts Hne Hst. unfold qualified_star_denotes, emit_qualified_star.
+  destruct (path_before_dot start rest common d k Hc Hq Hk parts [42] Hne Hst) as (toks & E & P).
+  rewrite E. change (sql_lex std_sql [42]) with [TPunct 42].
+  unfold split_qualified_star. rewrite rev_app_distr. cbn [rev app].
+  change ((42 =? 42) && (46 =? 46)) with true. cbn iota. rewrite rev_involutive. exact P.
+Qed.
+
+Theorem qualified_star_roundtrip_rows start rest common extra rows :
+  classes_ok start rest = true -> quotes_ok rows = true ->
+  forall row k parts, In row rows -> (k = FoldUpper -> snd row = true) ->
+  parts <> [] -> forallb (fun s => negb (is_star s)) parts = true ->
+  qualified_star_denotes k (snd (fst row)) (emit_qualified_star start rest common (identd_of extra row) parts) = Some parts.
+Proof.
+  intros Hc Q [[name q] a] k parts Hin Hk Hne Hst. cbn [fst snd] in *.
+  unfold quotes_ok in Q. rewrite forallb_forall in Q. specialize (Q _ Hin). cbn [fst snd] in Q.
+  apply (qualified_star_roundtrip_ok start rest common (identd_of extra (name, q, a)) k Hc); [|exact Hk|exact Hne|exact Hst].
+  apply orb_true_iff in Q as [Q|Q]; apply N.eqb_eq in Q; [left | right]; exact Q.
+Qed.
+
 Theorem path_roundtrip_rows start rest common extra rows :
   classes_ok start rest = true -> quotes_ok rows = true ->
   forall row k parts, In row rows -> (k = FoldUpper -> snd row = true) ->
